@@ -620,3 +620,13 @@ benign('C03', 'coordination counts incremented in the other order', NL, "       
 benign('C03', 'neighbour growth copies only the occupied part of each row', NL, "                                    for k in range(maxneighbors + 1):\n                                        newneighbors[j, k] = neighbors[j, k]", "                                    for k in range(min(neighbors[j, 0], maxneighbors) + 1):\n                                        newneighbors[j, k] = neighbors[j, k]")
 mutant('C03', 'second row insertion point never searched', NL, "                                if neighbors[vindex, j] > uindex:\n                                    vj = j\n                                    break", "                                if neighbors[vindex, j] > uindex:\n                                    vj = j", 'INSERTION')
 mutant('C19', 'regress: dtype of the latest run forced on merged columns', LOG, "                    converted = np.asarray(merged_df[key], dtype=dtypes[key])\n                except ValueError:\n                    pass\n                else:\n                    # Only keep the conversion if it leaves every value as it was\n                    if np.array_equal(converted, merged_df[key]):\n                        merged_df[key] = converted", "                    merged_df[key] = np.asarray(merged_df[key], dtype=dtypes[key])\n                except ValueError:\n                    pass", 'FLATTEN')
+
+# ------------------------------------------------------------------ round 5: element types of buffers (DTYPE-FLOW)
+mutant('C20', 'regress 7d99630: gradient buffer takes the coordinates\' element type', CD, 'gradient = np.zeros_like(coord, dtype=float)', 'gradient = np.zeros_like(coord)', 'FLOAT-BUFFERS')
+mutant('C20', 'regress 7fcfc68: tangent buffer takes the coordinates\' element type', ISM, 'τ = np.empty_like(self.coord, dtype=float)', 'τ = np.empty_like(self.coord)', 'FLOAT-BUFFERS')
+benign('C20', 'gradient buffer allocated from the shape', CD, 'gradient = np.zeros_like(coord, dtype=float)', 'gradient = np.zeros(coord.shape)')
+benign('C20', 'tangent buffer allocated from the shape', ISM, 'τ = np.empty_like(self.coord, dtype=float)', 'τ = np.empty(self.coord.shape, dtype=float)')
+mutant('C12', 'stress buffer takes the positions\' element type', 'atomman/defect/IsotropicVolterraDislocation.py', 'stress = np.empty(pos.shape[:-1] + (3,3))', 'stress = np.empty_like(pos, shape=pos.shape[:-1] + (3,3))', 'FLOAT-FIELDS')
+benign('C12', 'strain buffer with an explicit float type', 'atomman/defect/IsotropicVolterraDislocation.py', 'strain = np.empty(pos.shape[:-1] + (3,3))', 'strain = np.zeros(pos.shape[:-1] + (3,3), dtype=float)')
+mutant('C04', 'property buffer loses the property\'s element type', 'atomman/core/System.py', 'old.shape, dtype = old.dtype)', 'old.shape)', 'PROPERTY-TYPES')
+benign('C04', 'property buffer allocated like the property', 'atomman/core/System.py', 'new = np.empty((mults[0] * mults[1] * mults[2],) + old.shape, dtype = old.dtype)', 'new = np.empty_like(old, shape=(mults[0] * mults[1] * mults[2],) + old.shape)')
